@@ -202,6 +202,12 @@ func (S06) RunTape(t *sim.Tape, st *sim.Stats, keepLog bool) *sim.Outcome {
 		case 3:
 			f.Kind = "extend"
 			f.Ext = extBytes(ext, B2)
+			if stall == 2 {
+				// exactly where the stored block ends and the appended bytes begin, one Read answers
+				// (0, nil): a decoder probing for trailing data must not take that for the end
+				f.EmptyAt = len(B)
+				st.Inc("probe.empty_read_at_block_end_before_extension")
+			}
 			if big {
 				// far more trailing data than any buffer or bound an implementation might use while it
 				// drains the stream after a decode error; delivered in large pieces
